@@ -286,6 +286,23 @@ pub fn run(rep: &Report) {
         let d = overlay_layout(&mut rng);
         one(rep, d, &rng, true, 20_000 + i, i < 6);
     });
+    // scale: tens of thousands of data directives (more than 65536 lines) spread over hundreds of segments, a few
+    // dozen items labelled (first, last and every 17th segment's last item); in process and through the binary
+    for (k, (nseg, per)) in [(280usize, 250usize), (40, 30), (700, 100)].iter().enumerate() {
+        let mut d: Vec<DataItem> = Vec::with_capacity(nseg * (per + 1));
+        let mut lab = 0;
+        for s in 0..*nseg {
+            d.push(DataItem::Set(0x0100 + (s as u16) * 0x10));
+            for j in 0..*per {
+                lab += 1;
+                let label = if j + 1 == *per && (s % 17 == 0 || s + 1 == *nseg) { Some(format!("d{}", lab)) } else { None };
+                d.push(DataItem::Def(DataDef { label, word: false, kind: DK::Num(((s * 7 + j * 3) % 251 + 1) as u16) }));
+            }
+        }
+        let rng = Rng::new(0xC12D).fork(k as u64);
+        rep.count("layouts with tens of thousands of data directives", 1);
+        one(rep, d, &rng, true, 30_000 + k, true);
+    }
     let t = rep.thorough();
     let n = if t { 200_000 } else { 12_000 };
     let seed = rep.seed;
